@@ -21,7 +21,7 @@ class C18(BaseCheck):
   REQUIRED_CLASSES = ('counter', 'gauge', 'percentile:below-reservoir', 'percentile:above-reservoir',
                       'full-stack', 'percentile:busy-after-full', 'zero-increment', 'fractional-increment',
                       'overlapping-measure', 'gauge:persistent-objects', 'percentile:second-aggregation',
-                      'sibling-class-same-short-name', 'source-subclass', 'client-id:equal-not-identical', 'percentile:idle-siblings', 'percentile:aggregation-spans-clock-ticks', 'objects-bound-before-reset', 'percentile:idle-service-listed-after-a-live-one')
+                      'sibling-class-same-short-name', 'source-subclass', 'client-id:equal-not-identical', 'percentile:idle-siblings', 'percentile:aggregation-spans-clock-ticks', 'objects-bound-before-reset', 'percentile:idle-service-listed-after-a-live-one', 'aggregated-per-endpoint-first')
   ASSUMPTIONS = ('percentile bounds allow 1e-9 relative slack for the linear interpolation',)
   QUICK_CASES = 720
   THOROUGH_CASES = 40000
@@ -185,6 +185,21 @@ class C18(BaseCheck):
       out.obligations += 1
       if not all(g.ready() for g in gs):
         out.violate('measure:block-stuck', 'a timed block did not finish', {})
+    if idx % 5 == 1:
+      # another view of the same tables is taken first (a per-endpoint breakdown, through the documented
+      # key_selector argument): it is judged against the same increments, and leaves the per-service view alone
+      classes.add('aggregated-per-endpoint-first')
+      per_ep = VarzAggregator.Aggregate(VarzReceiver.VARZ_DATA, VarzReceiver.VARZ_METRICS, lambda s_: (s_.service, s_.endpoint))
+      by_ep = {}
+      for (short_, t_), v_ in model_sum.items():
+        if not short_.startswith('w:'):
+          by_ep[(short_, t_[1], t_[2])] = by_ep.get((short_, t_[1], t_[2]), 0) + v_
+      for (short_, svc_, ep_), want_ in by_ep.items():
+        out.obligations += 1
+        got_ = per_ep.get('verif.c18.' + short_, {}).get((svc_, ep_))
+        if got_ is None or got_.total != want_:
+          out.violate('aggregate:sum', 'verif.c18.%s aggregated per (service, endpoint): %r reads %r, increments sum to %r' % (
+            short_, (svc_, ep_), got_ and got_.total, want_), {'metric_kind': short_, 'view': 'per-endpoint'})
     agg = VarzAggregator.Aggregate(VarzReceiver.VARZ_DATA, VarzReceiver.VARZ_METRICS)
     for key, want in want_timed.items():
       out.obligations += 1
